@@ -258,3 +258,14 @@ HARMLESS += [
  # minimisation, so the minimised tensor never needs a sign (dead path)
  {"id": "c14-h-remove-sign", "prop": "C14", "file": _SI, "old": "        # if we got a -1 -> move to the term\n        term *= tensor.prefactor", "new": "        # if we got a -1 -> move to the term\n        term *= 1"},
 ]
+_IT = "adcgen/intermediates.py"
+MUTANTS += [
+ {"id": "c11-contracted-shared", "prop": "C11", "file": _IT, "old": "            for old, sp in zip(base_contracted, spaces):\n                subs[old] = contracted[sp].pop()", "new": "            for old, sp in zip(base_contracted, spaces):\n                subs[old] = contracted[sp][-1]"},
+ {"id": "c11-target-order", "prop": "C11", "file": _IT, "old": "            subs.update({o: n for o, n in zip(base_target, indices)})", "new": "            subs.update({o: n for o, n in zip(base_target, indices[::-1])})"},
+ {"id": "c11-contracted-not-renamed", "prop": "C11", "file": _IT, "old": "        if (base_contracted := expanded_itmd.contracted) is not None:\n            spaces =", "new": "        if (base_contracted := expanded_itmd.contracted) is not None and False:\n            spaces ="},
+ {"id": "c11-result-target", "prop": "C11", "file": _IT, "old": "            itmd = e.Expr(itmd, target_idx=indices)\n        return itmd\n\n    def tensor", "new": "            itmd = e.Expr(itmd)\n        return itmd\n\n    def tensor"},
+]
+HARMLESS += [
+ # over-factoring is compensated by a negative bracket exponent: t^2 * D = V^2 / D (same value)
+ {"id": "c11-h-factor-minexp", "prop": "C11", "file": _IT, "old": "                        min_exp = min(eri_exp, bk_exponent)", "new": "                        min_exp = max(eri_exp, bk_exponent)"},
+]
